@@ -87,6 +87,12 @@ def gen_cases(tier: str, seed: int):
         yield {"part": "D", "expr": e, "ctx": "bare"}
         if tier == "thorough" or r.random() < 0.3:
             yield {"part": "D", "expr": e, "ctx": "from"}
+    # the same statement text executed again on the same cursor after the result shape changed
+    for scen in ("replace_table", "alter_add", "alter_drop", "use_schema", "qmark_types", "view_replaced", "other_cursor_replaces"):
+        for read_between in (True, False):
+            yield {"part": "S", "scenario": scen, "read_between": read_between}
+    for q in ("select a, random(99) as r from people2", "select random(7)", "select id from people sample (50) seed (3)"):
+        yield {"part": "B3", "sql": q}
     # parametrised statements: description after bound-parameter execution
     for style in ("pyformat", "qmark"):
         for sql in ("select {p} as x", "insert into orders (id, note) values ({p}, {p})", "select id from people where id = {p}",
@@ -185,6 +191,10 @@ def run_case(case: dict, env: core.Env) -> None:
         return _part_c(case, env)
     if part == "D":
         return _part_d(case, env)
+    if part == "S":
+        return _part_s(case, env)
+    if part == "B3":
+        return _part_b3(case, env)
     return _part_p(case, env)
 
 
@@ -367,6 +377,92 @@ def _part_d(case: dict, env: core.Env) -> None:
             return
         _check_desc(env, f"expr:{e}", sql, cur.description, o["rows"], use_dict)
     env.nontrivial(("D", e, case["ctx"]))
+
+
+def _part_s(case: dict, env: core.Env) -> None:
+    """Same statement text, same cursor, result shape changed in between: description must follow the new result."""
+    import snowflake.connector
+
+    scen = case["scenario"]
+    saved = snowflake.connector.paramstyle
+    if scen == "qmark_types":
+        snowflake.connector.paramstyle = "qmark"
+    try:
+        fs, conn = _fresh()
+    finally:
+        snowflake.connector.paramstyle = saved
+    try:
+        cur = conn.cursor()
+        other = conn.cursor()
+        sql, p1, p2 = "SELECT * FROM SHAPE_T", None, None
+        other.execute("CREATE TABLE SHAPE_T (A INT, B VARCHAR)")
+        other.execute("INSERT INTO SHAPE_T VALUES (1, 'x')")
+        if scen == "qmark_types":
+            sql, p1, p2 = "SELECT ? AS X", (1,), ("hello",)
+        elif scen == "view_replaced":
+            other.execute("CREATE VIEW SHAPE_V AS SELECT A FROM SHAPE_T")
+            sql = "SELECT * FROM SHAPE_V"
+        cur.execute(sql, p1) if p1 else cur.execute(sql)
+        if case["read_between"]:
+            _ = cur.description
+        cur.fetchall()
+        if scen in ("replace_table", "other_cursor_replaces"):
+            c2 = fs.connect("db1", "s1").cursor() if scen == "other_cursor_replaces" else other
+            c2.execute("CREATE OR REPLACE TABLE SHAPE_T (A NUMBER(12,4), C DATE, D FLOAT)")
+            c2.execute("INSERT INTO SHAPE_T VALUES (1.5, '2020-01-01', 2.5)")
+        elif scen == "alter_add":
+            other.execute("ALTER TABLE SHAPE_T ADD COLUMN Z BOOLEAN")
+        elif scen == "alter_drop":
+            other.execute("ALTER TABLE SHAPE_T DROP COLUMN B")
+        elif scen == "use_schema":
+            other.execute("CREATE SCHEMA S9")
+            other.execute("CREATE TABLE S9.SHAPE_T (ONLY_IN_S9 DATE)")
+            other.execute("USE SCHEMA S9")
+        elif scen == "view_replaced":
+            other.execute("CREATE OR REPLACE VIEW SHAPE_V AS SELECT B, A FROM SHAPE_T")
+        o = core.run_stmt(cur, sql, p2 if p2 else None)
+        if not o["ok"]:
+            env.count("zoo_statement_rejected")
+            return
+        env.count("cmp_readable")
+        d = core.read_description(cur)
+        if not d["ok"]:
+            env.witness(f"C06/description-raises/re-executed:{scen}/{d['exc']['cls']}", str(d["exc"])[:300])
+            return
+        _check_desc(env, f"re-executed:{scen}", sql, cur.description, o["rows"], False)
+        # and it must equal the description a fresh cursor gives for the same statement now
+        fresh = conn.cursor()
+        fresh.execute(sql, p2) if p2 else fresh.execute(sql)
+        if [tuple(x) for x in fresh.description] != d["desc"]:
+            env.witness(f"C06/stale-description/same-text-re-executed/{scen}", f"{sql}: {d['desc']} but a fresh cursor reports {[tuple(x) for x in fresh.description]}")
+        env.nontrivial(("S", scen, case["read_between"]))
+    finally:
+        fs.duck_conn.close()
+
+
+def _part_b3(case: dict, env: core.Env) -> None:
+    """describe() must not disturb the session's seeded random sequence (twin sessions with / without the describe)."""
+    seqs = []
+    for with_describe in (False, True):
+        fs, conn = _fresh()
+        try:
+            cur = conn.cursor()
+            cur.execute("CREATE TABLE PEOPLE2 AS SELECT ID AS A FROM PEOPLE")
+            cur.execute("SELECT RANDOM(42)")
+            a = cur.fetchall()
+            if with_describe:
+                try:
+                    conn.cursor().describe(case["sql"])
+                except Exception:  # noqa: BLE001
+                    env.count("zoo_statement_rejected")
+            b = [conn.cursor().execute("SELECT RANDOM()").fetchall() for _ in range(3)]
+            seqs.append((a, b))
+        finally:
+            fs.duck_conn.close()
+    env.count("cmp_describe")
+    if seqs[0] != seqs[1]:
+        env.witness("C06/describe-changed-session/random-sequence", f"describe({case['sql']!r}) changed the session's RANDOM() sequence: {seqs[0][1]} vs {seqs[1][1]}")
+    env.nontrivial(("B3", case["sql"]))
 
 
 def _part_p(case: dict, env: core.Env) -> None:
